@@ -182,6 +182,13 @@ func (x *c16World) payloads(url string, rngSeed uint64) []payload {
 	case sdk.MsgTypeURL(&erc20types.MsgToggleTokenConversion{}):
 		add("by-denom", &erc20types.MsgToggleTokenConversion{Token: x.tok.Base})
 		add("by-erc20", &erc20types.MsgToggleTokenConversion{Token: x.ext.ERC20.Hex()})
+		// a registered pair whose ERC-20 contract has destroyed itself since (its account is deleted, as the state
+		// database does when it commits such a contract)
+		if xd, err := x.w.AddExternalToken(c.Users[3], fmt.Sprintf("XD%d", rng.IntN(100000)), big.NewInt(1000), "eth"); err == nil {
+			if c.App.EvmKeeper.DeleteAccount(ctx, xd.ERC20) == nil {
+				add("destroyed-pair", &erc20types.MsgToggleTokenConversion{Token: xd.Base})
+			}
+		}
 	case sdk.MsgTypeURL(&erc20types.MsgUpdateDenomAlias{}):
 		add("add-alias", &erc20types.MsgUpdateDenomAlias{Denom: x.tok.Base, Alias: "bsc0x0000000000000000000000000000000000001234"})
 		add("remove-alias", &erc20types.MsgUpdateDenomAlias{Denom: x.tok.Base, Alias: x.tok.Denom["eth"]})
